@@ -333,7 +333,7 @@ def main(chk):
     chk.parallel(_dispatch, tasks)
 
     # the cancel map along whole sessions (Client::handle executed): the key maps to the held server, and to nothing once it is released / the client is gone
-    hobl.handle_obligations(chk, chk.program('on'), {'C10'}, ['simple', 'session', 'extended', 'cuts', 'malformed', 'copy', 'two-clients', 'drops'])
+    hobl.handle_obligations(chk, chk.program('on'), {'C10'}, ['simple', 'session', 'extended', 'cuts', 'malformed', 'copy', 'two-clients', 'drops', 'timeouts'])
 
 if __name__ == '__main__':
     run_check('C10', main)
